@@ -137,3 +137,113 @@ CASES = [
     ("str-find-negative-window-clamped", [emit(("list", [meth(S("abc"), "find", S(""), I(-5), I(-100)), meth(S("abc"), "count", S(""), I(-5), I(-100)),
                                                          meth(S("abc"), "endswith", S(""), I(-5), I(-100))]))]),
 ]
+
+# ---- string methods whose arguments are derived from the receiver (a prefix / suffix / the whole receiver / longer than it /
+# a repeated first character / all occurrences in one run at the start or the end / overlapping occurrences / empty strings) ----
+def V(x):
+    return ("var", x)
+
+
+def idx(a, i):
+    return ("index", a, i)
+
+
+def L(*xs):
+    return ("list", list(xs))
+
+
+def T(*xs):
+    return ("tuple", list(xs))
+
+
+def ti(a, i):
+    return ("tindex", a, i)
+
+
+def fdef(name, params, *body):
+    return ("def", name, [("p", x, None) for x in params], list(body))
+
+
+# def t(k, v): emit(k); return v      - makes the moment an operand is evaluated visible in the transcript
+TRACER = fdef("t", ["k", "v"], emit(V("k")), ("return", V("v")))
+# def put(c, k, v, r): emit("put"); c[k] = v; return r
+PUT = fdef("put", ["c", "k", "v", "r"], emit(S("put")), ("assign", ti(V("c"), V("k")), V("v")), ("return", V("r")))
+
+CASES += [
+    ("str-replace-receiver-derived", [
+        emit(L(meth(S("abc"), "replace", S("a"), S("")), meth(S("aaa"), "replace", S("a"), S("")), meth(S("aab"), "replace", S("a"), S("")),
+               meth(S("--flag"), "replace", S("--"), S("")), meth(S("banana"), "replace", S("a"), S("")), meth(S("aaa"), "replace", S("aa"), S("")),
+               meth(S("abab"), "replace", S("ab"), S("")), meth(S("abab"), "replace", S("ab"), S(""), I(1)), meth(S("abc"), "replace", S("abc"), S("")),
+               meth(S("abc"), "replace", S("abcd"), S("")), meth(S("abc"), "replace", S("c"), S("")), meth(S("cbc"), "replace", S("c"), S("")),
+               meth(S("abc"), "replace", S("b"), S("")), meth(S("abc"), "replace", S(""), S("")), meth(S(""), "replace", S(""), S("")),
+               meth(S(""), "replace", S("a"), S("")), meth(S("aaa"), "replace", S("a"), S(""), I(2)), meth(S("aaa"), "replace", S("a"), S(""), I(0)),
+               meth(S("aaa"), "replace", S("a"), S("a")), meth(S("aab"), "replace", S("a"), S("aa")), meth(S("abc"), "replace", S("abc"), S("abc")))),
+        ("assign", ("tvar", "s"), S("  x  ")),
+        emit(L(meth(V("s"), "replace", ("slice", V("s"), None, I(1), None), S("")), meth(V("s"), "replace", ("slice", V("s"), None, I(2), None), S("")),
+               meth(V("s"), "replace", V("s"), S("")), meth(V("s"), "replace", ("slice", V("s"), I(-2), None, None), S(""), I(1)),
+               ("bin", "==", meth(V("s"), "replace", ("slice", V("s"), None, I(1), None), S("")), V("s")), V("s")))]),
+    ("str-affix-receiver-derived", [
+        emit(L(meth(S("abc"), "removeprefix", S("abc")), meth(S("abc"), "removeprefix", S("abcd")), meth(S("abab"), "removeprefix", S("ab")),
+               meth(S("abc"), "removeprefix", S("")), meth(S("abc"), "removesuffix", S("abc")), meth(S("abab"), "removesuffix", S("ab")),
+               meth(S("abc"), "removesuffix", S("xabc")), meth(S("aaa"), "lstrip", S("a")), meth(S("aab"), "lstrip", S("a")), meth(S("aab"), "strip", S("ab")),
+               meth(S("abca"), "strip", S("a")), meth(S("abc"), "rstrip", S("cb")), meth(S("abc"), "strip", S("abc")), meth(S("abc"), "lstrip", S("bc")),
+               meth(S("  "), "strip", S(" ")), meth(S("--a--"), "rstrip", S("--")))),
+        emit(L(meth(S("abc"), "startswith", S("abc")), meth(S("abc"), "startswith", S("abcd")), meth(S("abc"), "endswith", S("abc")),
+               meth(S("abc"), "endswith", S("xabc")), meth(S("abc"), "startswith", S("")), meth(S("aaa"), "startswith", S("aa"), I(2)),
+               meth(S("aaa"), "endswith", S("aa"), I(0), I(1)), meth(S("abc"), "startswith", T(S("bc"), S("ab"))), meth(S("abc"), "endswith", T(S("abcd"), S(""))),
+               ("bin", "in", S("abc"), S("abc")), ("bin", "in", S("abcd"), S("abc")), ("bin", "in", S(""), S(""))))]),
+    ("str-search-receiver-derived", [
+        emit(L(meth(S("aaa"), "count", S("aa")), meth(S("aaaa"), "count", S("aa")), meth(S("aaa"), "count", S("a"), I(1)), meth(S("abc"), "count", S("abc")),
+               meth(S("abc"), "count", S("abcd")), meth(S("aaa"), "find", S("a"), I(1)), meth(S("aaa"), "rfind", S("aa")), meth(S("abc"), "find", S("abc")),
+               meth(S("abc"), "find", S("abcd")), meth(S("abc"), "rfind", S("c")), meth(S("abc"), "find", S("")), meth(S("abc"), "rfind", S("")),
+               meth(S("abab"), "index", S("ab")), meth(S("abab"), "rindex", S("ab")), meth(S("abab"), "find", S("ab"), I(1)))),
+        emit(L(meth(S("aaaa"), "split", S("aa")), meth(S("abab"), "split", S("ab")), meth(S("abc"), "split", S("abc")), meth(S("abc"), "split", S("a")),
+               meth(S("abc"), "split", S("c")), meth(S("abc"), "split", S("abcd")), meth(S("aaa"), "rsplit", S("a"), I(1)), meth(S("aaa"), "split", S("a"), I(1)),
+               meth(S("aaa"), "rsplit", S("aa")), meth(S("a"), "join", meth(S("banana"), "split", S("a"))), meth(S(""), "join", meth(S("aab"), "split", S("a"))))),
+        emit(L(meth(S("abc"), "partition", S("abc")), meth(S("abc"), "partition", S("a")), meth(S("abc"), "rpartition", S("c")), meth(S("aaa"), "partition", S("aa")),
+               meth(S("aaa"), "rpartition", S("aa")), meth(S("abc"), "partition", S("abcd")), meth(S("abc"), "rpartition", S("abcd"))))]),
+    # ---- evaluation order (Python's): `a[i] op= rhs` evaluates a, i, READS a[i], evaluates rhs, combines, stores ----
+    # the right-hand side overwrites the element that the statement has already read
+    ("augassign-index-rhs-overwrites-element", [
+        ("assign", ("tvar", "d"), ("dict", [(S("a"), I(1)), (S("b"), I(2))])),
+        ("assign", ("tvar", "l"), L(I(10), I(20), I(30))),
+        fdef("bump", [], emit(S("bump")), ("assign", ti(V("d"), S("a")), I(100)), ("assign", ti(V("l"), I(-1)), I(7)), ("return", I(1))),
+        ("aug", ti(V("d"), S("a")), "+", call("bump")), emit(V("d")),
+        ("aug", ti(V("l"), I(2)), "*", call("bump")), emit(V("l")),
+        ("aug", ti(V("l"), I(-1)), "-", ("bin", "+", idx(V("l"), I(-1)), call("bump"))), emit(V("l")),
+        PUT,
+        ("aug", ti(V("d"), S("b")), "+", call("put", V("d"), S("b"), I(50), I(3))), emit(V("d")),
+        # the rhs removes the key: the store re-inserts it at the end; the rhs appends: a negative index is resolved again at the store
+        fdef("drop", ["k", "r"], ("expr", meth(V("d"), "pop", V("k"))), ("return", V("r"))),
+        ("aug", ti(V("d"), S("a")), "+", call("drop", S("a"), I(5))), emit(V("d")),
+        fdef("grow", ["r"], ("expr", meth(V("l"), "append", I(0))), ("return", V("r"))),
+        ("aug", ti(V("l"), I(-1)), "+", call("grow", I(1))), emit(V("l")),
+        # a list bound to a name is extended in place AFTER the right-hand side has run
+        ("aug", ("tvar", "l"), "+", call("put", V("l"), I(0), I(-1), L(idx(V("l"), I(0))))), emit(V("l"))]),
+    # the read of a[i] fails: the right-hand side must not have been evaluated (its output must not appear)
+    ("augassign-index-missing-key-before-rhs", [
+        TRACER, ("assign", ("tvar", "d"), ("dict", [(S("a"), I(1))])),
+        ("aug", ti(call("t", I(1), V("d")), call("t", I(2), S("a"))), "+", call("t", I(3), I(1))), emit(V("d")),
+        ("aug", ti(call("t", I(4), V("d")), call("t", I(5), S("zz"))), "+", call("t", I(6), I(1))), emit(V("d"))]),
+    ("augassign-index-out-of-range-before-rhs", [
+        TRACER, PUT, ("assign", ("tvar", "l"), L(I(1), I(2))),
+        ("aug", ti(V("l"), call("t", I(1), I(-2))), "-", call("t", I(2), I(1))), emit(V("l")),
+        ("aug", ti(V("l"), I(2)), "+", call("put", V("l"), I(0), I(9), I(1))), emit(V("l"))]),
+    # plain assignment: right-hand side first, then the container, then the index; a failing store comes after all of them
+    ("assign-index-order", [
+        TRACER, ("assign", ("tvar", "l"), L(I(1), I(2), I(3))),
+        ("assign", ti(call("t", I(1), V("l")), call("t", I(2), I(0))), call("t", I(3), I(5))), emit(V("l")),
+        ("assign", ("ttuple", [ti(call("t", I(4), V("l")), I(1)), ti(V("l"), call("t", I(5), I(2)))]), call("t", I(6), T(I(8), I(9)))), emit(V("l")),
+        ("assign", ti(call("t", I(7), V("l")), call("t", I(8), I(3))), call("t", I(9), I(0))), emit(V("l"))]),
+    # operands left to right: displays, operators, subscripts, slices, calls (positional then named), methods, conditionals
+    ("operand-order", [
+        TRACER, PUT, ("assign", ("tvar", "l"), L(I(1), I(2), I(3))),
+        emit(T(idx(V("l"), I(0)), call("put", V("l"), I(0), I(9), I(0)), idx(V("l"), I(0)))),
+        emit(L(("bin", "-", ("bin", "+", idx(V("l"), I(1)), call("put", V("l"), I(1), I(40), I(1))), idx(V("l"), I(1))))),
+        emit(("dict", [(call("t", I(1), S("a")), call("t", I(2), I(1))), (call("t", I(3), S("b")), call("t", I(4), I(2)))])),
+        emit(("slice", call("t", I(5), V("l")), call("t", I(6), I(0)), call("t", I(7), I(2)), call("t", I(8), I(1)))),
+        emit(("call", V("t"), [call("t", I(9), I(10))], [("v", call("t", I(11), I(12)))], None, None)),
+        emit(meth(call("t", I(13), S("a,b")), "split", call("t", I(14), S(",")), call("t", I(15), I(1)))),
+        emit(("ifx", call("t", I(16), ("bool", False)), call("t", I(17), I(1)), call("t", I(18), I(2)))),
+        emit(("bin", "<", call("t", I(19), I(1)), ("bin", "//", call("t", I(20), I(7)), call("t", I(21), I(0)))))]),
+]
